@@ -22,7 +22,7 @@ def case_strategy():
     return st.fixed_dictionaries(
         {
             "roots": gen.layout_forest(newlines=True, meta=True, blank=("", "", " ", "\t", "\xa0", "\n")).map(lambda f: gen.number([gen.make_valid(n) for n in f])),
-            "indent": st.integers(0, 8),
+            "indent": st.one_of(st.integers(0, 8), st.integers(0, 8), st.integers(9, 30)),
             "eol": st.sampled_from(EOLS),
         }
     )
